@@ -240,6 +240,6 @@ pub fn c05a(tier: Tier) -> (Totals, String) {
     conformance_totals("C05", &[Format::Fasta, Format::Fastq], tier, ConfCfg { positions: true, err_fields: false, nontrivial: has_record, what: "position() after every record" })
 }
 
-pub fn c17(tier: Tier) -> i32 {
-    conformance("C17", &[Format::Fasta, Format::Fastq], tier, ConfCfg { positions: false, err_fields: true, nontrivial: has_error, what: "all fields of the reported error and its message" })
+pub fn c17a(tier: Tier) -> (Totals, String) {
+    conformance_totals("C17", &[Format::Fasta, Format::Fastq], tier, ConfCfg { positions: false, err_fields: true, nontrivial: has_error, what: "all fields of the reported error and its message" })
 }
